@@ -20,6 +20,27 @@ CLAIMED = {
         ref="DESIGN.md §5 C12",
         note=NOTE + "Not modelled: real memory ordering of AtomicCell/Mutex/Condvar and the OS temp file; that each public call "
                     "contains exactly the atomic steps of the model is argued by reading the code and validated by the replay."),
+    "C18": dict(
+        text=("Proof: (b) FileView refines the clamped isolated slice for every window and EVERY sequence of read/seek "
+              "operations (simulation, induction over the sequence); (c) the chunker terminates and its chunks are contiguous, "
+              "cover [0,size) exactly once and cut only at line starts, for every file and chunk count, hence the chunks "
+              "partition the lines in order; (a) the bisection of index_chroms returns exactly the first line of every "
+              "chromosome run for every grouped file (soundness + completeness over the abstract list of line starts). "
+              "Correspondence: exhaustive small files / windows / operation sequences through the real FileView, "
+              "split_file_into_chunks_by_size and index_chroms, compared with the model and a linear-scan oracle."),
+        ref="DESIGN.md §5 C18",
+        note=NOTE + "The indexer theorem is about the abstract bisection (probe = first line start after a byte); its literal "
+                    "transcription is tested equal on 599,844 small files. OS file I/O and BufReader are not modelled."),
+    "C19": dict(
+        text=("Proof: for every extra-column count 0..40 the generated schema parses to exactly 3+n fields (finite quantifier, "
+              "kernel-decided against the model's copy of the generator tables); the parser returns on EVERY string, for every "
+              "character classification (each loop consumes input — the fuel of the model is never exhausted). "
+              "Correspondence: generator output and field count for 0..40 columns, grammar-based schemas with all truncations "
+              "and single-token mutations, and all short strings over the delimiter alphabet, through the real parser "
+              "(watchdog + memory cap) vs the model: declarations and error kinds must agree."),
+        ref="DESIGN.md §5 C19",
+        note=NOTE + "Rust's Unicode character classes are a parameter of the theorems; the driver instantiates them for ASCII + Latin-1. "
+                    "Bounded output growth is implied by termination within |s|+1 iterations per loop; not stated separately."),
 }
 
 PENDING = ["C01", "C02", "C03", "C04", "C05", "C06", "C07", "C08", "C09", "C10", "C11", "C13", "C14", "C15", "C16",
